@@ -2409,25 +2409,27 @@ class quantized_relu(base_quantizer.BaseQuantizer):  # pylint: disable=invalid-n
     if self.use_sigmoid:
       p = _sigmoid(x / m_i) * m
       xq = m_i * tf.keras.backend.clip(
-          2.0 * (_round_through(p, self.use_stochastic_rounding) / m) - 1.0,
+          2.0 * (_round_through(p, self.use_stochastic_rounding, precision=1.0) / m) - 1.0,
           0.0, 1.0 - 1.0 / m)
       if self.negative_slope > 0:
         neg_factor = 1 / (self.negative_slope * m)
         xq = xq + m_i * self.negative_slope * tf.keras.backend.clip(
             2.0 * (_round_through(p * self.negative_slope,
-                                  self.use_stochastic_rounding) * neg_factor) -
+                                  self.use_stochastic_rounding,
+                                  precision=1.0) * neg_factor) -
             1.0, -1.0, 0.0)
     else:
       p = x * m / m_i
       xq = m_i * tf.keras.backend.clip(
-          _round_through(p, self.use_stochastic_rounding) / m, 0.0,
+          _round_through(p, self.use_stochastic_rounding, precision=1.0) / m, 0.0,
           1.0 - 1.0 / m)
       if self.negative_slope > 0:
         neg_factor = 1 / (self.negative_slope * m)
         xq = xq + m_i * self.negative_slope * (
             tf.keras.backend.clip(
                 _round_through(p * self.negative_slope,
-                               self.use_stochastic_rounding) * neg_factor, -1.0,
+                               self.use_stochastic_rounding,
+                               precision=1.0) * neg_factor, -1.0,
                 0.0))
 
     if self.relu_upper_bound and not self.is_quantized_clip:
@@ -2627,7 +2629,7 @@ class quantized_tanh(base_quantizer.BaseQuantizer):  # pylint: disable=invalid-n
     m = K.cast_to_floatx(K.pow(2, non_sign_bits))
     p = K.tanh(x) if self.use_real_tanh else 2.0 * _sigmoid(x) - 1.0
     return tf.keras.backend.clip(
-                                 (_round_through(p * m, self.use_stochastic_rounding) / m),
+                                 (_round_through(p * m, self.use_stochastic_rounding, precision=1.0) / m),
                                  -1.0 + (1.0 * self.symmetric) / m,
                                  1.0 - 1.0 / m)
 
@@ -2693,7 +2695,7 @@ class quantized_sigmoid(base_quantizer.BaseQuantizer):  # pylint: disable=invali
 
     p = K.sigmoid(x) if self.use_real_sigmoid else _sigmoid(x)
 
-    return tf.keras.backend.clip((_round_through(p*m, self.use_stochastic_rounding) / m),
+    return tf.keras.backend.clip((_round_through(p*m, self.use_stochastic_rounding, precision=1.0) / m),
                                  (1.0 * self.symmetric) / m,
                                  1.0 - 1.0 / m)
 
